@@ -1095,5 +1095,5 @@ func main() {
 	}
 	r.Shuffle(len(gen), func(i, j int) { gen[i], gen[j] = gen[j], gen[i] })
 	cases = append(cases, gen...)
-	c.Must(c.WriteShards(a.Out, "Corr_IntAuth", cases, a.Shard))
+	c.Must(writeShards(a.Out, "Corr_IntAuth", cases, a.Shard))
 }
